@@ -65,20 +65,21 @@ func (c Config) N(quick, thorough int) int {
 
 // Run collects the three streams and the statistics of one harness run.
 type Run struct {
-	mu      sync.Mutex
-	cfg     Config
-	ops     *bufio.Writer
-	impl    *bufio.Writer
-	oracle  *bufio.Writer
-	files   []*os.File
-	Evals   int
-	seen    map[string]struct{}
-	Hist    map[string]int
-	Samples []string
-	Fails   int
-	Known   map[string]int
-	Notes   map[string]any
-	Rule    string
+	mu           sync.Mutex
+	cfg          Config
+	ops          *bufio.Writer
+	impl         *bufio.Writer
+	oracle       *bufio.Writer
+	files        []*os.File
+	Evals        int
+	seen         map[string]struct{}
+	Hist         map[string]int
+	Samples      []string
+	Fails        int
+	unclassified int
+	Known        map[string]int
+	Notes        map[string]any
+	Rule         string
 }
 
 func NewRun(cfg Config) (*Run, error) {
@@ -142,7 +143,10 @@ func (r *Run) Fail(class, witness string) {
 	r.mu.Lock()
 	defer r.mu.Unlock()
 	r.Fails++
-	if r.Fails <= 200 {
+	if class == "" {
+		r.unclassified++
+	}
+	if r.Fails <= 200 || (class == "" && r.unclassified <= 50) {
 		fmt.Fprintf(r.oracle, "FAIL %s %s\n", orDash(class), witness)
 	}
 }
@@ -152,7 +156,7 @@ func (r *Run) Fail(class, witness string) {
 func (r *Run) Stop() bool {
 	r.mu.Lock()
 	defer r.mu.Unlock()
-	return r.Fails >= 8
+	return r.unclassified >= 8
 }
 
 // KnownSeen reports that a listed finding's witness still reproduces.
